@@ -1281,11 +1281,15 @@ public:
 
         classifier_.build(samples.data(), sample_size, splitter_lcp_);
 
-        // create new jobs
-        pwork_ = parts_;
-        for (unsigned int p = 0; p < parts_; ++p)
+        // create new jobs. Once the last job is enqueued, the whole step may
+        // be finished and deleted by other threads before the loop condition
+        // is evaluated again, hence work on local copies.
+        Context& ctx = ctx_;
+        const size_t parts = parts_;
+        pwork_ = parts;
+        for (unsigned int p = 0; p < parts; ++p)
         {
-            ctx_.threads_.enqueue([this, p]() { count(p); });
+            ctx.threads_.enqueue([this, p]() { count(p); });
         }
     }
 
@@ -1341,11 +1345,13 @@ public:
         }
         assert(sum == strptr_.size());
 
-        // create new jobs
-        pwork_ = parts_;
-        for (unsigned int p = 0; p < parts_; ++p)
+        // create new jobs, again using local copies: see sample()
+        Context& ctx = ctx_;
+        const size_t parts = parts_;
+        pwork_ = parts;
+        for (unsigned int p = 0; p < parts; ++p)
         {
-            ctx_.threads_.enqueue([this, p]() { distribute(p); });
+            ctx.threads_.enqueue([this, p]() { distribute(p); });
         }
     }
 
